@@ -163,6 +163,41 @@ ENTRIES = {
              "entries that are 0/0 over the reals are not compared; correlation_matrix centres on the across-sample mean, so one sample gives NaN "
              "(documented by a refuted theorem, not counted as a violation: the property's 'unit diagonal' presupposes a defined correlation). The "
              "0-experiment reload defect found here was repaired in /repo (fix: 6d95451)."),
+    "C03": dict(
+        text="Coq model of reveal_plates / mask_screen / unmask_screen / save+load / hold-out split as the constructor calls the code makes, "
+             "parameterised by whether each call site passes the mappings. Proved: with mappings passed (the code as repaired), ids, mappings and "
+             "experiment-space sizes are frozen over every history on either half of any split; same name gives same id across stages. Refuted by "
+             "vm_compute for the variant without mappings (the pre-repair code). The extracted model is compared after every operation with the "
+             "real code on simulations prepared by the real hold-out (recorded rng), incl. h5py save/load and the reveal_plate CLI; the variant "
+             "the tree implements is detected from behaviour; the three former witnesses are corpus cases.",
+        note="Trusted: Coq kernel, extraction, OCaml driver, harness. HDF5 storage is modelled as the identity. The hold-out selection is recorded "
+             "from the real rng. The renumbering defect found here (reveal/mask/unmask dropped the mappings) was repaired in /repo (fix: e414171). "
+             "predict_stable is a corollary stated in prose (predictions index embeddings by id; C09 proves row-wise prediction)."),
+    "C08": dict(
+        text="Theorems (all datasets, all states, all draw results, any embedding size): for each Gaussian block (W0, V0, W, V2, V1) the "
+             "arguments of the draw are exactly the precision and linear term of the quadratic form energy(block:=x) - energy(block:=0) of an "
+             "independently written -2 log joint, i.e. the draw is the full conditional (V blocks under 'no row has the same treatment in both "
+             "columns'); blocks without data draw the prior; alpha is the observation mean; the prec / tau0 / gamma-process draws have "
+             "(shape-1, rate) equal to the ln-coefficient and linear coefficient of the log joint; every precision is clipped into "
+             "[1/sqrt(1+n), 1e6] after its step; the fitted-value cache equals the recomputation after every block of any sequence of sweeps; the "
+             "sweep order equals the call order read from the source on every run, duplicate-free and complete; get_model_state reproduces Mu and "
+             "prec; the triangular solves give Q m = b and L^T(x-m) = z. Refuted and shown on the real code: a self-combination row leaves the "
+             "cache stale. Tied to the code by running the extracted model per step function from the implementation's own pre-block state on 2-4 "
+             "samples, 2-5 treatments, D <= 3, 1-3 steps, with recorded draw stubs, plus a numpy log-joint predicate.",
+        note="Trusted: Coq kernel, extraction, OCaml driver (libm sqrt oracle), Python harness; numpy normal/gamma/cholesky assumed to do what "
+             "their arguments name; float rounding abstracted (tolerance 1e-4*scale); default model options only; horseshoe phi/eta steps compared "
+             "and predicate-checked but not proved; KNOWN FINDING self-combination-row-stale-cache (KNOWN_FINDINGS.json); with zero observations "
+             "the prec draw is unjittered and unclipped (recorded, outside 'all observed datasets'); six textual mutants of the step functions are "
+             "re-run as self-tests on every check."),
+    "C12": dict(
+        text="Proved for all screens, histories and id lists: plate-uniform mask is invariant and never the cause of a refusal; reveal = old mask "
+             "OR (plate id in ids) with conditions, plates and value bits unchanged; unobserved-plate counter drops by exactly the number of "
+             "distinct newly revealed plates; constructor mask rules; set_observed exactness; refusal of all-zero, empty, unknown-id and NaN "
+             "selections; definedness when guards pass. Compared after every operation with the real code, including h5py save/load and the "
+             "reveal_plate and extract_screen_metadata CLIs.",
+        note="Trusted: Coq kernel, extraction, driver, harness. Observation values cross as float64 bit patterns. reveal_plates takes one screen and "
+             "uses that screen's own plate ids. set_observed is outside the atomicity clause (it performs no plate check). Independent of sample "
+             "and treatment ids."),
 }
 PENDING = "check not built yet in this round; planned in DESIGN.md section 5 (no property is inapplicable in principle)"
 NOT_APPLICABLE = {p: PENDING for p in ["C%02d" % i for i in range(1, 21)] if p not in ENTRIES}
